@@ -293,46 +293,59 @@ func describe(path string) *File {
 			}
 			switch {
 			case v.Name.Name == "MarshalJSON":
+				// fields read through a getter (jget) / directly (jexp): keys of the `_json_T{…}` literal and the guarded
+				// `data.X = …` assignments for members promoted through an embedded pointer
 				x := nf(out.New, t)
+				add := func(val ast.Expr) {
+					if c, ok := val.(*ast.CallExpr); ok {
+						x.JGet = append(x.JGet, strings.TrimSuffix(member(c), "()"))
+					} else {
+						x.JExp = append(x.JExp, member(val))
+					}
+				}
+				dataVar := ""
 				ast.Inspect(v.Body, func(n ast.Node) bool {
-					cl, ok := n.(*ast.CompositeLit)
-					if !ok {
-						return true
-					}
-					if !strings.HasPrefix(baseType(cl.Type), "_json_") {
-						return true
-					}
-					x.JSON = true
-					for _, e := range cl.Elts {
-						kv, ok := e.(*ast.KeyValueExpr)
-						if !ok {
-							continue
-						}
-						k, _ := kv.Key.(*ast.Ident)
-						if k == nil {
-							continue
-						}
-						if c, ok := kv.Value.(*ast.CallExpr); ok {
-							x.JGet = append(x.JGet, strings.TrimSuffix(member(c), "()"))
-						} else {
-							x.JExp = append(x.JExp, member(kv.Value))
-						}
-					}
-					return false
-				})
-			case v.Name.Name == "UnmarshalJSON":
-				x := nf(out.New, t)
-				for _, st := range v.Body.List {
-					if es, ok := st.(*ast.ExprStmt); ok {
-						if c, ok := es.X.(*ast.CallExpr); ok {
-							if s, ok := c.Fun.(*ast.SelectorExpr); ok {
-								if id, ok := s.X.(*ast.Ident); ok && id.Name == recv {
-									x.JSet = append(x.JSet, s.Sel.Name)
+					switch w := n.(type) {
+					case *ast.AssignStmt:
+						if len(w.Lhs) == 1 && len(w.Rhs) == 1 {
+							if cl, ok := w.Rhs[0].(*ast.CompositeLit); ok && strings.HasPrefix(baseType(cl.Type), "_json_") {
+								if id, ok := w.Lhs[0].(*ast.Ident); ok {
+									dataVar = id.Name
+								}
+							}
+							if sel, ok := w.Lhs[0].(*ast.SelectorExpr); ok && dataVar != "" {
+								if id, ok := sel.X.(*ast.Ident); ok && id.Name == dataVar {
+									add(w.Rhs[0])
 								}
 							}
 						}
+					case *ast.CompositeLit:
+						if !strings.HasPrefix(baseType(w.Type), "_json_") {
+							return true
+						}
+						x.JSON = true
+						for _, e := range w.Elts {
+							if kv, ok := e.(*ast.KeyValueExpr); ok {
+								add(kv.Value)
+							}
+						}
+						return false
 					}
-				}
+					return true
+				})
+			case v.Name.Name == "UnmarshalJSON":
+				// fields written through a setter, anywhere in the body (promoted setters sit behind a nil guard)
+				x := nf(out.New, t)
+				ast.Inspect(v.Body, func(n ast.Node) bool {
+					if c, ok := n.(*ast.CallExpr); ok {
+						if s, ok := c.Fun.(*ast.SelectorExpr); ok && strings.HasPrefix(s.Sel.Name, "Set") {
+							if id, ok := s.X.(*ast.Ident); ok && id.Name == recv {
+								x.JSet = append(x.JSet, s.Sel.Name)
+							}
+						}
+					}
+					return true
+				})
 			case strings.HasPrefix(v.Name.Name, "To") && v.Type.Params.NumFields() == 0 && v.Type.Results.NumFields() == 1:
 				x := mf(out.Map, t)
 				x.HasTo = true
